@@ -18,7 +18,7 @@ import tempfile
 import warnings
 
 LEVEL = "exploration"
-TECHNIQUE = "runtime monitoring: recorded histories of install/import/uninstall operations over generated package forests (look-alike names, nested packages, cross imports, namespace and sourceless modules), each in a fresh process with spy typecheckers; offline checker against the predicate 'name == h or name.startswith(h + \".\") for a hook installed at first import, most recently installed hook first'; pytest option and IPython magic driven for a few histories; histories with ordinary .pyc files already present under python -B"
+TECHNIQUE = "runtime monitoring: recorded histories of install/import/uninstall operations over generated package forests (look-alike names, nested packages, cross imports, namespace and sourceless modules), each in a fresh process with spy typecheckers; offline checker against the predicate 'name == h or name.startswith(h + \".\") for a hook installed at first import, most recently installed hook first'; pytest option and IPython magic driven for a few histories; histories with ordinary .pyc files already present under python -B; a third of the histories call the hook API with warnings turned into errors; nested in-process pytest sessions inside the pytest arm"
 LEVEL_TEXT = (
     "Held on every generated history explored (each in its own process). The expected instrumentation of every module is "
     "computed by a small model of Python's import order plus the statement's predicate; observed are the spy log, the "
